@@ -446,7 +446,8 @@ class C16(PropBase):
                 "In-process concurrency (second pass): c16_process_is_one_lookup -- C12's model of the Symbolizer's per-module slot (every task set, every executor schedule; "
                 "C12.Proofs.at_most_once) composed with [locate]: whatever runs concurrently in ONE process, the servers and the cache directory see for one module what ONE lookup does "
                 "(request log = a prefix of the server list), so the single-lookup theorems hold for the process; compared with the real Symbolizer + HttpSymbolSupplier on kS<n> cases "
-                "(n concurrent fill_symbol calls in one join_all: exactly one supplier call, one request log, one entry, n equal answers). "
+                "(n concurrent fill_symbol calls in one join_all: exactly one supplier call, one request log, one entry, n equal answers); c16_process_file_is_one_lookup: the same for files "
+                "(C12/FileModel.v's slot per (module, kind) + locate_file of C16/FileFetch.v), compared on kS<n> kB / kD cases (n concurrent locate_file calls on one supplier). "
                 "Runtime behaviour NOT modelled but exercised: reqwest/hyper/tokio (incl. redirect following), NamedTempFile RAII, rename atomicity — "
                 "the real HttpSymbolSupplier runs against a scripted loopback server (every truncation point, chunkings, cascades, I/O failures, "
                 "drops at poll boundaries; 2-3 suppliers sharing cache+tmp with server-controlled interleavings, directory snapshots at every release point) and is compared with the extracted "
@@ -969,6 +970,21 @@ class C16(PropBase):
                 cadd([srv(body=b)], env=rng.choice(["t", "c", "d", "w100"]))
                 cadd([srv(body=b)], locs=["F" + hx(b)])
                 cadd([srv(framing="L%d,%d" % (nb_ // 3, 2 * nb_ // 3), body=b)], drop=rng.below(20))
+        # ... and n concurrent locate_file calls for one binary / debug file on ONE HttpSymbolSupplier (its own slot per
+        # (module, kind) in front of the fetch closure): one run of the closure, n equal answers
+        for kind in ("kB", "kD"):
+            for nconc in ((2, 5) if not thorough else (2, 3, 5, 9)):
+                def fadd(servers, **kw):
+                    add("in_process_concurrent", "kS%d %s " % (nconc, kind) + case(0, servers, **kw))
+                fadd([srv(framing="L300", body=blob)])
+                fadd([srv(404), srv(framing="K100,500", body=blob)])
+                fadd([srv(cut="c%d" % rng.below(nbl), body=blob), srv(framing="E", body=blob)])
+                fadd([srv(cut="r%d" % rng.below(nbl), body=blob)])
+                fadd([srv(500), srv(cut="h")])
+                fadd([srv(body=blob)], pre="F" + hx(blob))
+                fadd([srv(body=blob)], pre="D")
+                fadd([srv(body=blob)], env=rng.choice(["t", "c", "w100"]))
+                fadd([srv(framing="L200,600", body=blob)], drop=rng.below(16))
         # the runner shards the case list into contiguous ranges: spread the large bodies (5-200 KB: long lines, big
         # files) evenly over the list, otherwise one shard carries all of them and sets the wall time
         heavy = sorted((c for c in cases if len(c) > 12000), key=lambda c: (-len(c), c))
@@ -1163,7 +1179,7 @@ class C16(PropBase):
                     return "the regular file planted in the cache tree (env %s) was removed or changed (block %s: %s)" % (c.env, name, b.get("c"))
                 ents.remove(blk)
                 b["c"] = ",".join(ents) or "-"
-        if c.conc:
+        if c.conc and c.kind is None:
             # one process, one Symbolizer, n concurrent lookups of ONE module: the supplier is asked exactly once
             # (so: one download at most, every server asked at most once -- checked below on the request log),
             # and every lookup gets the same answer
@@ -1177,6 +1193,16 @@ class C16(PropBase):
             if rs != want:
                 return "concurrent lookups of one module got different answers: %s (supplier result %s)" % (rs, bl["A"]["r"][:40])
         if c.kind is not None:
+            if c.conc:
+                # n concurrent locate_file calls on one supplier: one run of the fetch closure -- every server asked at most
+                # once, in order -- and n equal answers
+                k = bl["A"].get("k", "")
+                if not k.startswith("1:") or set(k[2:]) != {"k"} or len(k[2:]) != c.conc:
+                    return "%d concurrent locate_file calls on one supplier did not all get the same answer (k=%s)" % (c.conc, k)
+                q = bl["A"].get("q", "-")
+                idx = [] if q == "-" else [int(e.split(":")[0]) for e in q.split(",")]
+                if idx != sorted(set(idx)):
+                    return "%d concurrent locate_file calls of one file: servers not queried in order, or one queried twice: %s" % (c.conc, idx)
             return self.oracle_file(c, bl)
         if c.nodebug and not c.redirected:
             for name, b in bl.items():
